@@ -48,6 +48,11 @@ func register() {
 			return vtagNode{}, nil
 		})
 		pongo2.RegisterFilter("vfilter", vfilterFn)
+		// a tag and a filter registered under the SAME name: banning one must not touch the other
+		pongo2.RegisterTag("vboth", func(doc *pongo2.Parser, start *pongo2.Token, args *pongo2.Parser) (pongo2.INodeTag, *pongo2.Error) {
+			return vtagNode{}, nil
+		})
+		pongo2.RegisterFilter("vboth", func(in, p *pongo2.Value) (*pongo2.Value, *pongo2.Error) { return pongo2.AsValue("VBOTH"), nil })
 		pongo2.RegisterFilter("vfilter2", func(in, p *pongo2.Value) (*pongo2.Value, *pongo2.Error) {
 			return pongo2.AsValue("VFILTER2"), nil
 		})
@@ -365,7 +370,7 @@ type HistCase struct {
 
 func (c *HistCase) ID() string { return strings.Join(c.Ops, " ") }
 
-var histOps = []string{"BanTag(vtag)", "BanTag(if)", "BanTag(nosuch)", "BanFilter(vfilter)", "BanFilter(nosuch)", "ReplaceTag(vtag)", "ReplaceFilter(vfilter)",
+var histOps = []string{"BanTag(vboth)", "BanFilter(vboth)", "FromString(bothtag)", "FromString(bothfilter)", "BanTag(vtag)", "BanTag(if)", "BanTag(nosuch)", "BanFilter(vfilter)", "BanFilter(nosuch)", "ReplaceTag(vtag)", "ReplaceFilter(vfilter)",
 	"FromString(plain)", "FromString(uses)", "FromBytes(plain)", "FromFile(plain)", "FromFile(uses)", "FromCache(plain)", "FromCache(uses)",
 	"RenderTemplateString(plain)", "RenderTemplateString(uses)", "RenderTemplateBytes(plain)", "RenderTemplateFile(plain)"}
 
@@ -403,7 +408,7 @@ const plainSrc = "plain{{ 1|vfilter2 }}"
 
 var histFiles = map[string]string{"/plain": plainSrc, "/uses": usesSrc, "/incl": `{% include "uses" %}`}
 
-var probes = []string{"{% vtag %}", "{{ 1|vfilter }}", "{% if 1 %}x{% endif %}", "{% filter vfilter %}x{% endfilter %}", "x{% vtag2 %}{{ 1|vfilter2 }}", `{% include "uses" %}`}
+var probes = []string{"{% vboth %}", "{{ 1|vboth }}", "{% filter vboth %}x{% endfilter %}", "{% vtag %}", "{{ 1|vfilter }}", "{% if 1 %}x{% endif %}", "{% filter vfilter %}x{% endfilter %}", "x{% vtag2 %}{{ 1|vfilter2 }}", `{% include "uses" %}`}
 
 // callRefuses runs f and reports whether it refused (error, or a panic carrying a *pongo2.Error as the Render* shortcuts do)
 func callRefuses(f func() error) (refused bool, bad string) {
@@ -437,7 +442,7 @@ func (c *HistCase) Exec(t *eng.T) {
 		arg := strings.TrimSuffix(op[strings.Index(op, "(")+1:], ")")
 		var wantRefused bool
 		var f func() error
-		src := map[string]string{"plain": plainSrc, "uses": usesSrc}[arg]
+		src := map[string]string{"plain": plainSrc, "uses": usesSrc, "bothtag": "{% vboth %}", "bothfilter": "{{ 1|vboth }}"}[arg]
 		switch name {
 		case "BanTag":
 			wantRefused = arg == "nosuch" || m.frozen || m.tags[arg]
